@@ -2,6 +2,7 @@
 import lib
 from lib import sx, parse_sx
 from gen import versions
+from props import parts
 
 PROOF_FILE = "C01"
 LEVEL = "proof"
@@ -116,3 +117,5 @@ def run(ctx):
             nd += 1
             if nd <= 40:
                 ctx.divergence("svm_cmp", {"system": name, "a": a, "b": b}, c, line)
+    # per-system parts (parsers, domains, further pools): harness/props/parts/*.py
+    parts.run_all("c01", ctx)
